@@ -94,8 +94,8 @@ def run(rep):
     ]
     def variants(case, idx):
         v = crop.default_variants(case, idx)
-        # thorough: every 9th history grows its batches in fresh OS processes (function un-pickled from disk)
-        v["subprocess"] = (rep.tier == "thorough" and idx % 9 == 0) or (rep.tier == "quick" and idx % 400 == 7)
+        # thorough: every 60th history grows its batches in fresh OS processes (function un-pickled from disk)
+        v["subprocess"] = (rep.tier == "thorough" and idx % 60 == 0) or (rep.tier == "quick" and idx % 400 == 7)
         return v
     crop.drive(rep, runs, claims=lambda tag: tag in CLAIMS, variants=variants)
     crop.parallel_grow_cases(rep, 2 if q else 6)
